@@ -328,13 +328,15 @@ func (e *Engine) Report(st *State, pos token.Pos, construct, format string, a ..
 // a heap cell. The index records what is stored into each cell anywhere.
 
 type cellIndex struct {
-	stores    map[*ssa.Alloc][]ssa.Value
-	storeIns  map[*ssa.Alloc][]*ssa.Store
-	freeAlloc map[*ssa.FreeVar]*ssa.Alloc
+	// fieldSites: store sites per "Type.field" of unexported struct types of the module
+	fieldSites map[string][]*ssa.Store
+	stores     map[*ssa.Alloc][]ssa.Value
+	storeIns   map[*ssa.Alloc][]*ssa.Store
+	freeAlloc  map[*ssa.FreeVar]*ssa.Alloc
 }
 
 func indexCells(p *Prog) *cellIndex {
-	ci := &cellIndex{stores: map[*ssa.Alloc][]ssa.Value{}, storeIns: map[*ssa.Alloc][]*ssa.Store{}, freeAlloc: map[*ssa.FreeVar]*ssa.Alloc{}}
+	ci := &cellIndex{stores: map[*ssa.Alloc][]ssa.Value{}, storeIns: map[*ssa.Alloc][]*ssa.Store{}, freeAlloc: map[*ssa.FreeVar]*ssa.Alloc{}, fieldSites: map[string][]*ssa.Store{}}
 	fns := p.Funcs()
 	// closure bindings (parents are listed before their anonymous functions)
 	for _, fn := range fns {
@@ -362,6 +364,14 @@ func indexCells(p *Prog) *cellIndex {
 		for _, b := range fn.Blocks {
 			for _, in := range b.Instrs {
 				if s, ok := in.(*ssa.Store); ok {
+					if fa, isFA := s.Addr.(*ssa.FieldAddr); isFA {
+						if pt, isP := fa.X.Type().Underlying().(*types.Pointer); isP {
+							if nt, isN := pt.Elem().(*types.Named); isN && !nt.Obj().Exported() && nt.Obj().Pkg() != nil && p.Mods[nt.Obj().Pkg().Path()] {
+								k := nt.Obj().Name() + "." + fieldName(fa.X.Type(), fa.Field)
+								ci.fieldSites[k] = append(ci.fieldSites[k], s)
+							}
+						}
+					}
 					var al *ssa.Alloc
 					switch a := s.Addr.(type) {
 					case *ssa.Alloc:
@@ -496,6 +506,18 @@ func (e *Engine) canon(fc *FrameCtx, v ssa.Value, depth int) (string, bool) {
 			}
 			if fa, ok := v.X.(*ssa.FieldAddr); ok {
 				f := fieldName(fa.X.Type(), fa.Field)
+				// a field of a "captured-state" struct (a closure turned into a struct with
+				// methods): written at exactly one site in the program, on the freshly
+				// allocated object we are reading from — it is that stored value
+				if sites := e.cells.fieldSites[typeName(fa.X.Type())+"."+f]; len(sites) == 1 && depth < 40 {
+					if sfa, ok := sites[0].Addr.(*ssa.FieldAddr); ok {
+						if a0, ok := stripConv(sfa.X).(*ssa.Alloc); ok {
+							if bv, _ := e.ArgValue(fc, fa.X); stripConv(bv) == ssa.Value(a0) {
+								return e.canon(e.ctxOfOr(fc, a0.Parent()), sites[0].Val, depth+1)
+							}
+						}
+					}
+				}
 				return s, st && e.Immutable[typeName(fa.X.Type())+"."+f]
 			}
 			if _, ok := v.X.(*ssa.IndexAddr); ok {
